@@ -326,7 +326,7 @@ def hashable_desc(v):
 
 
 # ---------------------------------------------------------------------------
-# well-formedness on descriptors (the harness's own reading of `Ty.wfLang`)
+# well-formedness on descriptors (the harness's own reading of `Ty.wf`)
 # ---------------------------------------------------------------------------
 
 
@@ -979,6 +979,9 @@ BND_SEEDS = [
     ["bnd", ["float"], None, -3, None, 3],
     ["bnd", ["cls", "int"], 0, 4, None, None],   # ge=0 together with gt: constructible because 0 is falsy
     ["bnd", ["float"], None, None, 0, 6],
+    ["bnd", ["cls", "int"], 0, None, 6, None],
+    ["bnd", ["float"], -2, None, None, 4],
+    ["bnd", ["cls", "int"], None, -4, 0, None],
 ]
 
 
@@ -1182,7 +1185,12 @@ def gen_cases(tier, rng):
     # 1. all depth-0/1 annotations over the leaf set
     d1 = list(depth1_annotations(rng))
     if quick:
-        d1 = d1[:40] + rng.sample(d1[40:], 150)
+        # always: every leaf, and every unary constructor over every plain leaf; the rest sampled
+        def must(a):
+            return depth_of(a) == 0 or (a[0] in ("list", "set", "tvar", "opt", "type") and a[1] in PLAIN_LEAVES)
+
+        rest = [a for a in d1 if not must(a)]
+        d1 = [a for a in d1 if must(a)] + rng.sample(rest, 70)
     for a in d1:
         yield from make_cases(a, rng, cap, "depth1", modes=("t", "p"))
     # 1b. every unary constructor over every depth-0/1 annotation (depth 2); a sample in the quick tier
@@ -1206,7 +1214,7 @@ def gen_cases(tier, rng):
               ["opt", ["list", ["any"]]], ["dict", ["cls", "str"], ["list", ["any"]]]):
         yield from make_cases(a, rng, cap, "bare", modes=("bt", "bp"))
     # 3. seeded random annotations of depth 2 and 3
-    n = 400 if quick else 12000
+    n = 380 if quick else 12000
     for i in range(n):
         depth = rng.choice([2, 2, 3, 3, 3])
         a = gen_ann(rng, depth)
